@@ -24,7 +24,7 @@ ID = "C15"
 LEVEL = "exploration"
 RULE = (
     "input = random bytes (0..300) | truncation / 1..5-octet tag-aware mutation / FF run / insertion / deletion / tag swap of a genuine message (28 fixture messages, generated lists of the three vendors in both forms, "
-    "Kaifa list-1 messages whose register holds '(' / ')' octets, P1 blocks) | ASCII fragment over 0-9 . : - ( ) * CR LF with unbalanced parentheses and trailing garbage, numeric extremes (inf, nan, 1e309, 400 digits) in unit-converted values, runs of 25..1500 characters of one class followed by a character of another class in value / unit / address position | structured junk (well-formed Kaifa value lists of undocumented lengths, frames with other LLC octets, unknown Kamstrup OBIS, null APDU date-time, FF date-time fields) | size sweep to 8 KiB; "
+    "Kaifa list-1 messages whose register holds '(' / ')' octets, P1 blocks) | ASCII fragment over 0-9 . : - ( ) * CR LF with unbalanced parentheses and trailing garbage, numeric extremes (inf, nan, 1e309, 400 digits) in unit-converted values, runs of 25..1500 characters of one class followed by a character of another class in value / unit / address position | structured junk (well-formed Kaifa value lists of undocumented lengths, frames with other LLC octets, unknown Kamstrup OBIS, null APDU date-time, FF date-time fields) | size sweep to 8 KiB | a fixed corpus of ~700 pathological inputs (runs of 30/60/400 characters of one class + terminator in value, unit and address position; structures nested 10..60 deep) probed on every run; "
     "each input is given to an AutoDecoder in each of the 8 remembered-decoder states (fresh + primed with a streak of 1..9 genuine messages of each of the 7 decoders), through decode_message_payload and through "
     "decode_message(DlmsMessage / DataReadout). evaluations = monitored calls; distinct non-trivial = distinct (input, state) pairs where the input is not itself a genuine message."
 )
@@ -172,6 +172,13 @@ def run(shard, ctx):
     rng = ctx.rng(ID)
     h = Harness(ctx, rng)
     try:
+        if shard["index"] % 4 == 0:
+            # the fixed corpus, split over four shards, fresh decoder and decoder primed with P1
+            corpus = pool.canonical_inputs()
+            for j, (data, kind) in enumerate(corpus):
+                if j % 4 == (shard["index"] // 4) % 4:
+                    h.probe(data, "ascii" if data[:1] not in (b"\x01", b"\x02") else "structured", (None, "P1") if j % 3 else (None,))
+                    ctx.count("canonical_inputs_probed")
         for i in range(shard["n"]):
             data, kind = make_input(rng, h.genuine)
             ctx.count("input_" + kind.split(":")[0])
@@ -202,6 +209,6 @@ def replay(case, ctx):
 
 def finalize(agg, tier):
     c = agg["counters"]
-    reasons = [f"workload never produced '{k}'" for k in ["monitored_calls", "memory_samples", "input_ascii", "input_sweep", "input_random", "input_structured", "structured_kaifa_odd_length", "structured_llc_variant", "mutation_truncate", "mutation_ff_run", "returned_dict", "returned_none"]
+    reasons = [f"workload never produced '{k}'" for k in ["monitored_calls", "memory_samples", "canonical_inputs_probed", "input_ascii", "input_sweep", "input_random", "input_structured", "structured_kaifa_odd_length", "structured_llc_variant", "mutation_truncate", "mutation_ff_run", "returned_dict", "returned_none"]
                + [f"state_{n}" for n in pool.DECODER_NAMES] if c.get(k, 0) == 0]
     return {"step_budget": "50000 + 2000 x len(input)"}, reasons
